@@ -72,7 +72,10 @@ func HashName(field string) string {
 func RemoveElementAfter(slice []string, marker string) []string {
 	for i, v := range slice {
 		if v == marker && i+1 < len(slice) {
-			return append(slice[:i+1], slice[i+2:]...)
+			// build a new slice: appending to slice[:i+1] would shift the caller's elements in place
+			result := make([]string, 0, len(slice)-1)
+			result = append(result, slice[:i+1]...)
+			return append(result, slice[i+2:]...)
 		}
 	}
 	return slice
